@@ -644,6 +644,7 @@ func AudioOnlySdp(actl string) string {
 // reaches within microseconds.  Once a wait has expired (something leaks: a finding is reported by
 // the caller) later waits are cut short so that the run still ends in reasonable time.
 var waitBudget = Watchdog
+var waitExpired int
 
 // WaitUntil polls cond (no sleep longer than 100µs) until it holds or the budget expires.
 func WaitUntil(cond func() bool) bool {
@@ -653,7 +654,13 @@ func WaitUntil(cond func() bool) bool {
 			return true
 		}
 		if time.Now().After(deadline) {
-			waitBudget = 300 * time.Millisecond
+			waitExpired++
+			switch {
+			case waitExpired > 20:
+				waitBudget = time.Millisecond
+			default:
+				waitBudget = 50 * time.Millisecond
+			}
 			return false
 		}
 		if i < 50 {
